@@ -2972,10 +2972,10 @@ CALSCALE:GREGORIAN\n";
 		if (UNLIKELY(i.t == NULL)) {
 			break;
 		}
-		/* use specifics in T to declare defaults */
-		if (i.t->max_simul) {
-			fdprintf("X-ECHS-MAX-SIMUL:%d\n", i.t->max_simul);
-		}
+		/* use specifics in T to declare defaults,
+		 * only the owner though, what is particular to T such as
+		 * its max-simul value is written along with T and must
+		 * not rub off on the tasks that follow */
 		with (nummapstr_t o = i.t->owner) {
 			const char *p;
 			uintptr_t n;
